@@ -1,6 +1,7 @@
 import ComposeVerif.Ops.Common
 import ComposeVerif.Model.Select
 import ComposeVerif.Spec.Select
+import ComposeVerif.Model.SelectLoad
 /-!
 line-protocol ops for C15
 
@@ -275,6 +276,65 @@ def each : Handler := fun args =>
     ("all", Json.mkObj ((allServices p).map fun (k, sv) => (k, Json.str sv.image))),
     ("profilesOf", strs (getProfiles p.services)), ("profilesOfAll", strs (getProfiles (allServices p)))]
 
-def handlers : List (String × Handler) := [("c15hist", hist), ("c15run", modelRun), ("c15each", each)]
+/-! ## `c15load` (round 6): the tail of `loader.modelToProject` and `cli.WithDefaultProfiles` on real loads -/
+
+/-- args: `base` (the same files loaded with `Profiles = ["*"]` and both checks skipped: the declared services), `path`
+(`opts` = `loader.Options.Profiles`, `cli` = `cli.WithDefaultProfiles(given...)` with `COMPOSE_PROFILES` in the environment),
+`profiles`, `env`, `skipConsistency`, `skipResolve`, `real` (`{"ok": observation}` or `{"err": class}`).
+Result: the model's outcome, whether it agrees exactly, the branch the model took, and the clauses of `load_profiles_exact` /
+`load_consistent` / `load_disabled_untouched` / `load_star_enables_all` that the *real* result violates. -/
+def load : Handler := fun args =>
+  let base := canon (projOfJson (getObj args "base"))
+  let p0 : Proj := { base with profiles := [] }
+  let given := strsOf args "profiles"
+  let env := strMapOf args "env"
+  let sc := getBool args "skipConsistency"
+  let sr := getBool args "skipResolve"
+  let P := if getStr args "path" == "cli" then defaultProfiles given env else given
+  let m := loadApply p0 P sc sr
+  let real := realOf (getObj args "real")
+  let agree : Bool := match m, real with
+    | .ok mq, some (some q) => canon mq == q
+    | .undefinedDependency, some none => true
+    | _, _ => false
+  let spec : List String :=
+    clause "load-star" (decide (base.disabled = [])) ++
+    match real with
+    | some (some q) =>
+      clause "load-partition" (decide (Partition q ∧ SameSet (known q) (keys p0.services))) ++
+      clause "load-profiles" (decide (q.profiles = P ∧ ∀ kv ∈ p0.services,
+        ((kv.1 ∈ keys q.services ↔ Active kv.2 P) ∧ (kv.1 ∈ keys q.disabled ↔ ¬Active kv.2 P)))) ++
+      clause "load-disabled-untouched" (decide (∀ kv ∈ q.disabled, lookup kv.1 p0.services = some kv.2)) ++
+      clause "load-consistent" (sc || decide (∀ kv ∈ q.services, ∀ d ∈ kv.2.deps,
+        d.1 ∈ keys q.services ∨ (d.1 ∈ keys q.disabled ∧ d.2.required = false))) ++
+      clause "load-profiles-ok" (decide (ProfilesOK q))
+    | some none => clause "load-rejects" (sc == false && (checkDeps (withProfiles p0 P)).isSome)
+    | none => []
+  let branch : String := match m with
+    | .undefinedDependency => "err-undefined-dependency"
+    | .ok q => (if q.disabled.isEmpty then "ok-all-enabled" else if q.services.isEmpty then "ok-none-enabled" else "ok-split") ++
+        (if sr then "" else "+resolved")
+  Json.mkObj [("agree", .bool agree), ("spec", strs spec), ("branch", .str branch), ("P", strs P),
+    ("model", match m with | .ok mq => outToJson (.ok (canon mq)) | .undefinedDependency => Json.mkObj [("err", "undefinedDependency")])]
+
+/-! ## `c15seq` (round 6): long histories — the final real project against `run`, and the invariant of `partition_inv` -/
+
+/-- args: `init`, `ops`, `final` (the real project after the whole history; failed operations keep the receiver).
+Result: whether `run init ops` is that project exactly, and the clauses of `history_conserved` the real pair violates. -/
+def seq : Handler := fun args =>
+  let p := canon (projOfJson (getObj args "init"))
+  let ops := (arrOf args "ops").map opOfJson
+  let q := canon (projOfJson (getObj args "final"))
+  let m := canon (run p ops)
+  let good := decide (Partition p) && decide (Named p)
+  let spec : List String :=
+    if !good then ["skipped:not-a-good-project"]
+    else clause "history-partition" (decide (Partition q)) ++
+      clause "history-declared" (decide (SameSet (known p) (known q))) ++
+      clause "history-conserved" (decide (Conserved p q)) ++
+      clause "history-profiles-ok" (decide (ProfilesOK p → ProfilesOK q))
+  Json.mkObj [("agree", .bool (m == q)), ("spec", strs spec), ("model", projToJson m)]
+
+def handlers : List (String × Handler) := [("c15hist", hist), ("c15run", modelRun), ("c15each", each), ("c15load", load), ("c15seq", seq)]
 
 end CV.Ops.C15
